@@ -960,6 +960,13 @@ static int load_module_symbol_file(struct uftrace_symtab *symtab, const char *sy
 		char *name;
 		char *pos;
 
+		/*
+		 * Every line is written with its newline: a last line without
+		 * one was cut short and does not describe a whole symbol.
+		 */
+		if (strchr(line, '\n') == NULL)
+			break;
+
 		if (*line == '#') {
 			if (!strncmp(line, "# symbols: ", 11)) {
 				size_t nr_syms = strtoul(line + 11, &pos, 10);
